@@ -124,7 +124,7 @@ def _hexital_history(case, subject):
 
 
 def shards(tier):
-    n = 120 if tier == "quick" else 3000
+    n = 300 if tier == "quick" else 4000
     mx = 50 if tier == "quick" else 160
     out = []
     for s in gc.SUBJECTS:
